@@ -9,6 +9,7 @@ import (
 	"net/http"
 	"os"
 	"reflect"
+	"strings"
 	"sync"
 	"testing"
 	"time"
@@ -25,6 +26,7 @@ type c16Up struct {
 	node  *TNode
 	state string // connected, goaway, ended
 	exp   time.Time
+	conns int64 // connections this listener has made through its relay, as far as the model knows
 }
 
 func statusEndpoints(n *TNode) (map[string]int, error) {
@@ -42,7 +44,7 @@ func statusEndpoints(n *TNode) (map[string]int, error) {
 }
 
 func TestC16(t *testing.T) {
-	vlib.SetRule("C16", "TestC16", "1-2 real nodes with an HMAC-protected upstream port (in a third of the cases multi-tenant, every listener connecting as the tenant; in a quarter of the others keyed by a JWK set file); 2-6 upstream listeners on shared and distinct endpoints connect through cuttable relays and end in a drawn order by: client Shutdown, go-away (optionally hit by a request, the proxy's ErrGone removal) then Shutdown, abrupt relay cut (FIN or RST), server-initiated shedding (Rebalance), optionally with a slow request in flight; then 0-2 listeners with a token expiring 1.2-2.2 s ahead (disconnect-on-expiry enabled or disabled per cluster); finally node shutdown (in a third of the cases with a 1 s grace period while a client that sent half a request occupies the upstream port); oracle at every quiescent point: status API registry == cluster endpoints == model of open connections and open-session count == model, everything empty/0 after shutdown; expiry: still registered 300 ms before exp, deregistered in [exp, exp+deadline], or still registered 1 s after exp when disabled; in-flight requests end in 200 or a gateway error; non-trivial = two different ending modes hit the same endpoint while a sibling stays connected, or an ending with a request in flight")
+	vlib.SetRule("C16", "TestC16", "1-2 real nodes with an HMAC-protected upstream port (in a third of the cases multi-tenant, every listener connecting as the tenant; in a quarter of the others keyed by a JWK set file); 2-6 upstream listeners on shared and distinct endpoints connect through cuttable relays and end in a drawn order by: client Shutdown, go-away (optionally hit by a request, the proxy's ErrGone removal) then Shutdown, abrupt relay cut (FIN or RST), server-initiated shedding (Rebalance), optionally with a slow request in flight; then 0-2 listeners with a token expiring 1.2-2.2 s ahead (disconnect-on-expiry enabled or disabled per cluster); finally node shutdown (in a third of the cases with a 1 s grace period while a client that sent half a request occupies the upstream port); oracle at every quiescent point: status API registry == cluster endpoints == model of open connections and open-session count == model, everything empty/0 after shutdown; expiry: still registered 300 ms before exp, deregistered in [exp, exp+deadline], or still registered 1 s after exp when disabled; in-flight requests end in 200 or a gateway error; a listener whose connection nothing has ended never has to reconnect (connections counted at its relay); non-trivial = two different ending modes hit the same endpoint while a sibling stays connected, or an ending with a request in flight")
 	vlib.Run(t, "C16", func(c *vlib.Case) {
 		k := TestKeys()
 		N := c.Int("nodes", 1, 2)
@@ -219,6 +221,25 @@ func TestC16(t *testing.T) {
 			connect(i, c.OneOf("ep", "e0", "e1"), cl.Nodes[c.Pick("node", N)], exp, c.Chance("slow", 1, 3))
 		}
 		quiesce("after connecting")
+		// "closed ... at that expiry and not before": the server never closes a connection
+		// that nothing has ended. A closed listener reconnects at once, which the
+		// registry cannot show - the count of connections made through its relay can.
+		for _, x := range ups {
+			x.conns = x.relay.Count.Load()
+		}
+		noSurpriseReconnects := func(when string, shed bool) {
+			for _, x := range ups {
+				if x.state != "connected" {
+					continue
+				}
+				if now := x.relay.Count.Load(); now != x.conns {
+					if !shed {
+						c.Fatalf("C16 (%s): listener %s (%s on %s) was disconnected and has reconnected (%d connections so far, %d expected) although nothing ended its connection and its token has not expired", when, x.u.ID, x.u.Endpoint, x.node.ID, now, x.conns)
+					}
+					x.conns = now
+				}
+			}
+		}
 		// endings
 		modesPerEp := map[string]map[string]bool{}
 		inflightEnding := false
@@ -298,6 +319,7 @@ func TestC16(t *testing.T) {
 			}
 			modesPerEp[x.u.Endpoint][mode] = true
 			quiesce("after ending " + x.u.ID + " by " + mode)
+			noSurpriseReconnects("after ending "+x.u.ID+" by "+mode, mode == "shed")
 		}
 		for ep, ms := range modesPerEp {
 			sibling := false
@@ -344,6 +366,21 @@ func TestC16(t *testing.T) {
 					c.Fatalf("C16: disconnect-on-expiry is disabled but 1 s after the expiry: %s", msg)
 				}
 				c.Class("expiry-disabled-kept")
+				// keeping a connection past the expiry is one thing, admitting a NEW one with the
+				// expired token (the very string that was accepted while valid) is another
+				if len(xs) > 0 {
+					x := xs[0]
+					ctx, cancel := context.WithTimeout(context.Background(), Deadline())
+					late, err := ConnectUpstream(ctx, x.node, fmt.Sprintf("late%d", K), x.u.Endpoint, "sdk-http", UpstreamOpts{Token: mint(exp), TenantID: tenantID})
+					cancel()
+					if err == nil {
+						late.Disconnect()
+						c.Fatalf("C16: a new listener was admitted %v after the expiry of its token (the same token string had been accepted while valid; disconnect-on-expiry disabled)", time.Since(exp).Round(time.Millisecond))
+					}
+					if !strings.Contains(err.Error(), "401") {
+						c.Fatalf("C16: connecting with an expired token failed oddly: %v", err)
+					}
+				}
 			} else {
 				// the server must close at the expiry: not before, and within the deadline
 				for _, x := range xs {
